@@ -39,9 +39,9 @@ var c18Conv *eng.Kind[ConvCase]
 
 func init() {
 	c := eng.Register(&eng.Check{
-		ID:    "C18",
-		Title: "Numeric builtins and bit operators compute what their names say",
-		Rule: "X = decimals c*10^e with c in {0..30, 95..105, 995..1005, 15-digit extremes}, e in {-15,-3..3,15}, both signs, plus every .5 tie and quarter around -12..12: abs ceil floor round roundBank toInt toFloat toString finite on all of X against exact rational arithmetic; sqrt exp ln log against a self-checking 320-bit reference evaluated at the exact decimal argument (relative error <= 5e-15) plus the inverse laws; max/min over every list of length 1..6 from 5 values incl. equal values in different spellings; toFloat/finite on numeric and non-numeric strings and non-finite values; & | ^ ~ on all pairs of 24 integers against Go int64 operators; distinct = distinct (function, result) pairs",
+		ID:          "C18",
+		Title:       "Numeric builtins and bit operators compute what their names say",
+		Rule:        "X = decimals c*10^e with c in {0..30, 95..105, 995..1005, 15-digit extremes}, e in {-15,-3..3,15}, both signs, plus every .5 tie and quarter around -12..12: abs ceil floor round roundBank toInt toFloat toString finite on all of X against exact rational arithmetic; sqrt exp ln log against a self-checking 320-bit reference evaluated at the exact decimal argument (relative error <= 5e-15) plus the inverse laws; max/min over every list of length 1..6 from 5 values incl. equal values in different spellings; toFloat/finite on numeric and non-numeric strings and non-finite values; & | ^ ~ on all pairs of 24 integers against Go int64 operators; distinct = distinct (function, result) pairs",
 		TrustedBase: []string{"math/big (Rat, Float)", "internal/ref/num.go (320-bit exp/ln, self-checked against e, ln 10 and exp(ln x)=x on every run)"},
 		Assumptions: []string{"exp is judged for |x| <= 700 only (beyond that the result leaves every practical range)", "numeric strings are used only in the unambiguous form [-]digits[.digits][e[+-]digits]"},
 		Run:         runC18,
